@@ -1,7 +1,7 @@
 """Per-property obligation modules for Engine B."""
 import importlib
 
-PROPS = ["C01", "C02", "C03", "C06", "C07", "C08", "C09", "C12", "C16", "C18", "C05", "C11", "C13", "C17", "C19"]
+PROPS = ["C01", "C02", "C03", "C06", "C07", "C08", "C09", "C10", "C12", "C16", "C18", "C05", "C11", "C13", "C17", "C19"]
 
 
 def load(pid):
@@ -10,11 +10,11 @@ def load(pid):
 
 # module-path fragments whose bodies every Engine B property may need (one compiler run serves
 # all of them)
-COMMON_FILTERS = ["flush_worker", "store::insert", "flush_manager", "segment_index", "segment_index_builder", "handover", "temporal_pruner", "shard::manager", "dispatch::streaming", "aggregate::ops", "condition_evaluator_builder",
+COMMON_FILTERS = ["flush_worker", "store::insert", "flush_manager", "segment_index", "segment_index_builder", "handover", "temporal_pruner", "filter_group_builder", "compaction::policy", "streaming::response_writer", "zone_step_runner", "streaming::context", "segment::lifecycle", "segment::inflight", "shard::manager", "dispatch::streaming", "aggregate::ops", "condition_evaluator_builder",
                   "wal_cleaner", "inner_wal_writer", "wal_handle", "segment::lifecycle",
                   "compaction_worker", "auth::", "handlers::", "command::dispatcher",
                   "command::parser", "json_command", "shard::worker", "shard::context",
-                  "wal_recovery", "condition_evaluator", "temporal_calendar_index", "time_bucketing", "calendar_dir", "shared::time", "temporal_builder", "wal_archive", "wal_archiver", "schema::registry", "field_selector", "index_selector", "segment_id_loader", "range_allocator", "passive_buffer_set"]
+                  "wal_recovery", "condition_evaluator", "temporal_calendar_index", "time_bucketing", "calendar_dir", "shared::time", "temporal_builder", "wal_archive", "wal_archiver", "schema::registry", "field_selector", "index_selector", "segment_id", "range_allocator", "passive_buffer_set"]
 
 
 def all_filters():
